@@ -148,8 +148,11 @@ def community_louvain(W, gamma=1, ci=None, B='modularity', seed=None):
         raise BCTParamError('Potts hamiltonian requires binary input matrix')
 
     if B == 'modularity':
-        B = W - gamma * np.outer(np.sum(W, axis=1), np.sum(W, axis=0)) / s
+        # normalized by the total weight as in the reference implementation, so
+        # that the 1e-10 thresholds below do not depend on the unit of W
+        B = (W - gamma * np.outer(np.sum(W, axis=1), np.sum(W, axis=0)) / s) / s
         B = (B + B.T) / 2  # symmetrize (directed input)
+        renormalize = True
     elif B == 'potts':
         B = W - gamma * np.logical_not(W)
         B = (B + B.T) / 2
